@@ -590,6 +590,7 @@ def main():
     ex.report(builds)
     ck.extra["unjudged_arithmetic_ub"] = ex.arith_unjudged
     ck.extra["batch_timeouts_rerun_alone"] = ex.n_retimed
+    ck.extra["shards_relaunched"] = ex.runner.retries
     ck.extra["process_model"] = ("one process per input; fork server (harness/c15fs.c) forks the tool right "
                                  "before main(); sample and all failures re-run with plain fork/exec")
     if ck.evaluations < 1000 and not ck.only:
